@@ -62,6 +62,11 @@ struct DDir {
     field: Option<(u8, Option<Val>)>,
     /// 1..=5
     level: u8,
+    /// a second value matcher, on the other field (only together with a value matcher in
+    /// `field`): `[alpha{x=1,y=true}]`; such a directive can only be given through
+    /// Directive::from_str + add_directive (F13: strings are split on every comma)
+    #[serde(default)]
+    field2: Option<Val>,
 }
 #[derive(Clone, Debug, Serialize, Deserialize, PartialEq)]
 enum Op {
@@ -130,6 +135,13 @@ fn val_str(v: Val) -> String {
     }
 }
 impl DDir {
+    /// the second value matcher, if the first one is a value matcher too
+    fn two(&self) -> Option<Val> {
+        match self.field {
+            Some((_, Some(_))) => self.field2,
+            _ => None,
+        }
+    }
     fn render(&self) -> String {
         let mut s = String::new();
         if let Some(t) = self.target {
@@ -145,6 +157,12 @@ impl DDir {
             if let Some(v) = v {
                 s.push('=');
                 s.push_str(&val_str(v));
+                if let Some(v2) = self.field2 {
+                    s.push(',');
+                    s.push_str(["y", "x"][f as usize % 2]);
+                    s.push('=');
+                    s.push_str(&val_str(v2));
+                }
             }
             s.push('}');
         }
@@ -429,7 +447,7 @@ fn run_dynamic(sdirs: &[SDir], ddirs_in: &[DDir], as_filter: bool, ops: &[Op]) -
     // identical (target, span, field matcher) directives: the later entry replaces the earlier
     let mut ddirs: Vec<DDir> = vec![];
     for d in ddirs_in {
-        let key = |d: &DDir| (d.target.map(|t| t % 9), d.span.map(|s| s % 2), d.field.map(|(f, v)| (f % 2, v.map(val_str))));
+        let key = |d: &DDir| (d.target.map(|t| t % 9), d.span.map(|s| s % 2), d.field.map(|(f, v)| (f % 2, v.map(val_str))), d.two().map(val_str));
         if let Some(p) = ddirs.iter().position(|x| key(x) == key(d)) {
             ddirs[p] = d.clone();
         } else {
@@ -438,19 +456,44 @@ fn run_dynamic(sdirs: &[SDir], ddirs_in: &[DDir], as_filter: bool, ops: &[Op]) -
     }
     let ddirs = &ddirs[..];
     let s: String = sdirs.iter().map(|d| d.render()).chain(ddirs_in.iter().map(|d| d.render())).collect::<Vec<_>>().join(",");
-    let e = match EnvFilter::try_new(&s) {
-        Ok(e) => e,
-        Err(e) => return fail("EnvFilter rejects a string of the documented grammar", format!("{s:?}: {e}")),
+    let multi = ddirs_in.iter().any(|d| d.two().is_some());
+    let e = if multi {
+        // a directive with two value matchers contains a comma: it is added on its own
+        let mut e = match EnvFilter::try_new(sdirs.iter().map(|d| d.render()).collect::<Vec<_>>().join(",")) {
+            Ok(e) => e,
+            Err(e) => return fail("EnvFilter rejects a string of the documented grammar", format!("{s:?}: {e}")),
+        };
+        if sdirs.is_empty() {
+            // an empty string installs the default ERROR directive; the joined-string path has none
+            e = EnvFilter::try_new("off").unwrap();
+        }
+        for d in ddirs_in {
+            match d.render().parse::<tracing_subscriber::filter::Directive>() {
+                Ok(p) => e = e.add_directive(p),
+                Err(er) => return fail("Directive rejects a string of the documented grammar", format!("{:?}: {er}", d.render())),
+            }
+        }
+        e
+    } else {
+        match EnvFilter::try_new(&s) {
+            Ok(e) => e,
+            Err(e) => return fail("EnvFilter rejects a string of the documented grammar", format!("{s:?}: {e}")),
+        }
     };
     // Display round trip keeps behaviour: run the same history against the reparsed filter too
-    let e2 = match EnvFilter::try_new(e.to_string()) {
+    let e2 = match EnvFilter::try_new(if multi { "off".to_string() } else { e.to_string() }) {
         Ok(e2) => e2,
         Err(er) => return fail("EnvFilter cannot parse its own Display output", format!("{:?}: {er}", e.to_string())),
     };
     let place = || if as_filter { Place::PerLayerFilter } else { Place::GlobalLayer };
     let mut nontrivial = false;
     let mut classes: Vec<String> = vec![];
-    for (which, st) in [("parsed", stack_env(e, place())), ("reparsed from Display", stack_env(e2, place()))] {
+    let mut variants = vec![("parsed", stack_env(e, place()))];
+    if !multi {
+        // (a two-matcher directive does not survive the comma split of a filter string: F13)
+        variants.push(("reparsed from Display", stack_env(e2, place())));
+    }
+    for (which, st) in variants {
         let _g = tracing_core::dispatch::set_default(&st.d);
         // model
         #[derive(Clone)]
@@ -470,7 +513,7 @@ fn run_dynamic(sdirs: &[SDir], ddirs_in: &[DDir], as_filter: bool, ops: &[Op]) -
                 .iter()
                 .filter(|d| d.cares(ms.target, ms.name))
                 .filter(|d| match d.field {
-                    Some((f, Some(v))) => (if f % 2 == 0 { ms.x } else { ms.y }) == Some(v),
+                    Some((f, Some(v))) => (if f % 2 == 0 { ms.x } else { ms.y }) == Some(v) && d.two().map(|v2| (if f % 2 == 0 { ms.y } else { ms.x }) == Some(v2)).unwrap_or(true),
                     _ => true,
                 })
                 .map(|d| d.level)
@@ -517,8 +560,13 @@ fn run_dynamic(sdirs: &[SDir], ddirs_in: &[DDir], as_filter: bool, ops: &[Op]) -
                         }
                         // re-recording a field with another value is outside the property (matchers
                         // are sticky: once a value matched it stays matched)
-                        if (if field % 2 == 0 { ms.x } else { ms.y }).is_some() {
+                        // (recording the SAME value once more is fine and must change nothing)
+                        let cur = if field % 2 == 0 { ms.x } else { ms.y };
+                        if cur.is_some() && cur != Some(v) {
                             continue;
+                        }
+                        if cur == Some(v) {
+                            classes.push("same_value_recorded_again".into());
                         }
                         if let Some(id) = &ms.id {
                             let i = meta_index(1, ms.target, ms.name);
@@ -726,13 +774,13 @@ fn val_strategy() -> BoxedStrategy<Val> {
     prop_oneof![any::<bool>().prop_map(Val::B), (0u64..3).prop_map(Val::U)].boxed()
 }
 fn ddir_strategy() -> BoxedStrategy<DDir> {
-    (proptest::option::weighted(0.4, 0u8..9), proptest::option::weighted(0.8, 0u8..2), proptest::option::weighted(0.5, (0u8..2, proptest::option::weighted(0.7, val_strategy()))), 1u8..=5)
-        .prop_map(|(target, span, field, level)| {
+    (proptest::option::weighted(0.4, 0u8..9), proptest::option::weighted(0.8, 0u8..2), proptest::option::weighted(0.5, (0u8..2, proptest::option::weighted(0.7, val_strategy()))), 1u8..=5, proptest::option::weighted(0.2, val_strategy()))
+        .prop_map(|(target, span, field, level, field2)| {
             // `[]` alone is not a directive: a scope needs a name or a field. A field list
             // without span name and without value (`[{x}]=..`) is a *static* directive of the
             // env filter as well, with its own matching rules for spans; it is not generated.
             let span = if span.is_none() && !matches!(field, Some((_, Some(_)))) { Some(0) } else { span };
-            DDir { target, span, field, level }
+            DDir { target, span, field, level, field2 }
         })
         .boxed()
 }
@@ -1027,7 +1075,7 @@ impl Property for C11 {
         // inside each other and left again, with events in between
         let nested = (proptest::collection::vec(sdir_strategy(), 0..2), (0u8..2, val_strategy(), 1u8..=5, proptest::option::weighted(0.5, 0u8..2)), proptest::collection::vec(ddir_strategy(), 0..2), any::<bool>(), proptest::collection::vec((0u8..2, proptest::option::weighted(0.8, val_strategy()), 0u8..6, 0u8..5), 2..4), proptest::collection::vec(op, 0..6))
             .prop_map(|(sdirs, (f, v, level, span), mut ddirs, as_filter, spans, extra)| {
-                ddirs.insert(0, DDir { target: None, span: span.map(|_| 0), field: Some((f, Some(v))), level });
+                ddirs.insert(0, DDir { target: None, span: span.map(|_| 0), field: Some((f, Some(v))), level, field2: None });
                 let mut ops = vec![];
                 for (i, (name, val, target, lvl)) in spans.iter().enumerate() {
                     let (x, y) = if f % 2 == 0 { (*val, None) } else { (None, *val) };
@@ -1043,10 +1091,28 @@ impl Property for C11 {
                 ops.extend(extra);
                 Case::Dynamic { sdirs, ddirs, as_filter, ops }
             });
+        // two-matcher template: a span satisfies one of the two value matchers of a directive
+        // (recorded at creation and again later), the other one never or only later
+        let twomatch = (0u8..2, val_strategy(), val_strategy(), 1u8..=5, proptest::option::weighted(0.5, val_strategy()), 0u8..3, 0u8..6, any::<bool>(), proptest::collection::vec(sdir_strategy(), 0..2))
+            .prop_map(|(f, v, v2, level, other, again, target, as_filter, sdirs)| {
+                let ddirs = vec![DDir { target: None, span: Some(0), field: Some((f, Some(v))), level, field2: Some(v2) }];
+                let (x, y) = if f % 2 == 0 { (Some(v), other) } else { (other, Some(v)) };
+                let mut ops = vec![Op::Open { slot: 0, name: 0, target, x, y }];
+                for _ in 0..again {
+                    ops.push(Op::Record { slot: 0, field: f, v });
+                }
+                ops.push(Op::Enter { slot: 0 });
+                for l in 0..5u8 {
+                    ops.push(Op::Event { level: l, target });
+                }
+                ops.push(Op::Exit);
+                ops.push(Op::Event { level: 4, target });
+                Case::Dynamic { sdirs, ddirs, as_filter, ops }
+            });
         let tokens = proptest::collection::vec(any::<u8>(), 1..16).prop_map(|data| Case::Tokens { data });
         let fdir = (proptest::option::weighted(0.8, 0u8..3), proptest::collection::vec(0u8..4, 0..4), 0u8..6).prop_map(|(target, fields, level)| FDir { target, fields, level });
         let fdirs = proptest::collection::vec(fdir, 1..5).prop_map(|dirs| Case::FieldDirs { dirs });
-        prop_oneof![2 => st, 2 => dy, 1 => nested, 1 => tokens, 1 => fdirs].boxed()
+        prop_oneof![4 => st, 4 => dy, 2 => nested, 2 => tokens, 2 => fdirs, 1 => twomatch].boxed()
     }
     fn run(&self, case: &Case) -> Outcome {
         match case {
